@@ -107,5 +107,6 @@ Emit == (Export /\ phase = "done") =>
     PrintT(<<"SLABS", ToJson([lev |-> lev0,
                               slabs |-> [j \in 1..Len(slabs) |->
                                             [kind |-> slabs[j].kind, b |-> slabs[j].b, t |-> slabs[j].t, deck |-> slabs[j].deck,
-                                             adm |-> Adm(lev0, slabs[j].b, slabs[j].t), inv |-> Inverted(slabs[j].b, slabs[j].t)]]])>>)
+                                             adm |-> Adm(lev0, slabs[j].b, slabs[j].t), inv |-> Inverted(slabs[j].b, slabs[j].t),
+                                             f |-> ProfileOf(slabs[j], lev0, Cen2(lev0))]]])>>)
 =============================================================================
